@@ -170,10 +170,57 @@ def evolving_pass(ctx):
             return
 
 
+def shrinking_pass(ctx):
+    """the metamodel loses a reference between the moment it is used and a deletion: `a.ref = b`, `a.others.append(b)`, a
+    second referrer, then the class (or a supertype) loses `ref` — by removal of the feature or of the supertype that
+    declared it —, then `b.delete()`: it ends, and nobody refers to `b` through the references that remain"""
+    from pyecore import ecore as E
+    for k in range(24 if ctx.quick() else 300):
+        rng = common.sub_rng(ctx.seed, 'C07', 'shrinking', k)
+        Base, A, B = E.EClass('Base'), E.EClass('A'), E.EClass('B')
+        A.eSuperTypes.append(Base)
+        where = rng.choice([Base, A])
+        many_lost = rng.random() < .4
+        lost = E.EReference('lost', B, upper=-1 if many_lost else 1)
+        where.eStructuralFeatures.append(lost)
+        A.eStructuralFeatures.extend([E.EReference('others', B, upper=-1), E.EReference('one', B)])
+        a, a2, b, b2 = A(), A(), B(), B()
+        for x in (a, a2):
+            if many_lost:
+                x.lost.extend([b2, b])
+            else:
+                x.lost = b
+            x.others.extend([b2, b])
+            x.one = b
+        how = rng.choice(['feature-removed', 'supertype-removed']) if where is Base else 'feature-removed'
+        if how == 'feature-removed':
+            where.eStructuralFeatures.remove(lost)
+        else:
+            A.eSuperTypes.remove(Base)
+        ctx.evaluations += 1
+        ctx.count(f'shrinking/{how}/{"many" if many_lost else "single"}')
+        ctx.nontriv(('shrinking', k))
+        rep = {'shrinking': k, 'how': how, 'many': many_lost, 'declared_on': where.name}
+        try:
+            b.delete()
+        except Exception as e:
+            ctx.violate({'clause': 'delete-raised', 'trigger': 'none', 'evolving': True},
+                        f'delete-raised: after {how} ({"many" if many_lost else "single"}-valued reference declared on {where.name}): '
+                        f'{type(e).__name__}: {e}', rep)
+            return
+        left = [f'{n}.{f}' for n, x in (('a', a), ('a2', a2)) for f in ('others', 'one')
+                if any(v is b for v in (list(x.eGet(f)) if f == 'others' else [x.eGet(f)]))]
+        if left:
+            ctx.violate({'clause': 'dangling', 'trigger': 'none', 'evolving': True},
+                        f'dangling: after {how}, the deleted object is still held by {left}', rep)
+            return
+
+
 def run(ctx):
     common.use_repo()
     derived_pass(ctx)
     evolving_pass(ctx)
+    shrinking_pass(ctx)
     from . import crossworld
     crossworld.deletion_pass(ctx)
     n = 150 if ctx.quick() else 2500
